@@ -806,6 +806,12 @@ static void engine_op(int argc, char **argv)
   if(strcmp(op, "mdisp") == 0 && argc == 5) {
     /* tickit_mockterm_get_display_text(buffer of exactly LEN bytes, LEN, line, col, width) */
     if(!is_mock || !heldt()) { obs("skip"); dump(); return; }
+    {
+      /* a well-behaved application asks for cells of the screen as it is now (after tickit_mockterm_resize) */
+      int tl = 0, tc = 0;
+      tickit_term_get_size(tt, &tl, &tc);
+      if(A(2) < 0 || A(2) >= tl || A(3) < 0 || A(4) < 0 || A(3) + A(4) > tc) { obs("skip"); dump(); return; }
+    }
     long len = atol(argv[1]);
     char *buf = len >= 0 ? malloc(len ? len : 1) : NULL;
     if(buf) memset(buf, 0x55, len ? len : 1);
